@@ -611,6 +611,8 @@ def gen_list_op_wild(rng, spec, cfg, closure_names, i):
     elif m == "clear":
         if keep_one:
             return None
+    if rng.random() < 0.4:
+        op["alias"] = "use"
     return op
 
 
@@ -729,6 +731,9 @@ def gen_cross_system(rng, spec, cfg, closure_names, i):
     if not cands:
         return None
     target, attr, method, arg = rng.choice(cands)
+    if method != "set" and rng.random() < 0.5:
+        # the offending object in front of the others (not the last newly linked one)
+        method = rng.choice(["insert0", "setitem0", "assign_list_front"])
     op = {"op": "cross_system", "suffix": sfx, "target": target, "attr": attr, "method": method, "arg": arg}
     if rng.random() < 0.4 and cls[arg] in ("UsagePattern", "UsageJourney", "UsageJourneyStep") + tuple(S.JOB_CLASSES):
         # indirect: not the object of the first system itself, but a fresh copy of it (same links, no system yet)
